@@ -73,11 +73,16 @@ def gen(rng, shape=None):
     owner = {}
     # module names: flat, or the same base name in different directories (a loader or linker that identifies a
     # module by anything coarser than the import string confuses them)
-    scheme = rng.choice(["flat", "flat", "dirs", "dirs-mixed"])
+    scheme = rng.choice(["flat", "dirs", "dirs-mixed", "affixes", "affixes2"])
     if scheme == "flat":
         libname = lambda li: "m%d" % li
     elif scheme == "dirs":
         libname = lambda li: "pkg%d/util" % li
+    elif scheme == "affixes":
+        # names that differ only by trailing characters out of ".nslir" / by a prefix of each other
+        libname = lambda li: ("color", "colors", "colorsl")[li]
+    elif scheme == "affixes2":
+        libname = lambda li: ("util", "utils", "util_s")[li]
     else:
         libname = lambda li: ("util" if li == 0 else "sub%d/util" % li)
     for li, idxs in enumerate(ranges):
@@ -196,3 +201,24 @@ def _text(rng, imps, gl, fs):
             parts.append(it)
         parts = imps_left[:0] + parts + imps_left
     return "\n".join(parts) + "\n", mode
+
+
+def directed_diamond(names=("lib", "mid")):
+    """lib {h0}; mid {h1 -> h0} imports lib; top0 imports lib and mid (a diamond); top1 imports mid only (a chain)"""
+    a = V("a", INT)
+    h0 = Func("h0", [(INT, "a")], INT, Block([Return(B("+", B("*", a, IntLit(3)), IntLit(1)))]), False)
+    h1 = Func("h1", [(INT, "a")], INT, Block([Return(B("+", Call("h0", [B("+", a, IntLit(2))], INT, h0), IntLit(10)))]), True)
+    x = V("x", INT)
+    r0 = Func("r0_0", [(INT, "x")], INT, Block([Return(B("+", Call("h0", [x], INT, h0), Call("h1", [x], INT, h1)))]), True)
+    r1 = Func("r1_0", [(INT, "x")], INT, Block([Return(B("*", Call("h1", [x], INT, h1), IntLit(2)))]), True)
+    sp = Split()
+    sp.libs = [(names[0], [h0], []), (names[1], [h1], [names[0]])]
+    sp.roots = [("top0", [r0], sorted(names), []), ("top1", [r1], [names[1]], [])]
+    sp.union = Module(funcs=[h0, h1, r0, r1])
+    import random as _r
+    rng = _r.Random(0)
+    for name, fs, imps in sp.libs:
+        sp.layouts[name] = _text(rng, imps, [], fs)
+    for name, fs, imps, gl in sp.roots:
+        sp.layouts[name] = _text(rng, imps, gl, fs)
+    return sp
